@@ -269,7 +269,7 @@ namespace chaiscript {
             } else if (lhs.get_type_info().bare_equal_type_info(typeid(bool)) && oper == "!") {
               return chaiscript::make_unique<eval::AST_Node_Impl<T>, eval::Constant_AST_Node<T>>(std::move(match),
                                                                                                  node->location,
-                                                                                                 Boxed_Value(!boxed_cast<bool>(lhs)));
+                                                                                                 const_var(!boxed_cast<bool>(lhs)));
             }
           } catch (const std::exception &) {
             // failure to fold, that's OK
@@ -284,9 +284,9 @@ namespace chaiscript {
               const auto match = node->children[0]->text + " " + node->text + " " + node->children[1]->text;
               const auto val = [lhs_val = boxed_cast<bool>(lhs), rhs_val = boxed_cast<bool>(rhs), id = node->identifier] {
                 if (id == AST_Node_Type::Logical_And) {
-                  return Boxed_Value(lhs_val && rhs_val);
+                  return const_var(lhs_val && rhs_val);
                 } else {
-                  return Boxed_Value(lhs_val || rhs_val);
+                  return const_var(lhs_val || rhs_val);
                 }
               }();
 
